@@ -143,6 +143,24 @@ var workloads = map[string]func(env *wl.Env){
 		}
 		_ = s.Close()
 	},
+	// the application is not receiving: the server's first message stays parked (unread) in the
+	// stream while the client keeps sending; whatever fails, the client then closes the stream
+	"unread": func(env *wl.Env) {
+		s, err := env.Conn.NewStream(context.Background(), "/ssD", enc.Bytes{})
+		if err != nil {
+			return
+		}
+		getLog(env).last = s
+		for i := 0; i < 3; i++ {
+			if send(env, s, "/ssD", "c2s", 'D', i) != nil {
+				break
+			}
+			if i == 0 {
+				env.Cli.WaitDelivered(8) // the reply has arrived and is sitting unread in the stream
+			}
+		}
+		_ = s.Close()
+	},
 	"bidi": func(env *wl.Env) {
 		s, err := env.Conn.NewStream(context.Background(), "/bdE", enc.Bytes{})
 		if err != nil {
@@ -306,7 +324,7 @@ func calls(cfg wl.Config, wname string) (cw, cr, sw, sr int, payloads map[string
 
 func plans(tier string) []mc.Plan {
 	var ps []mc.Plan
-	wnames := []string{"unary", "cstream", "sstream", "bidi"}
+	wnames := []string{"unary", "cstream", "sstream", "bidi", "unread"}
 	if tier == "thorough" {
 		wnames = append(wnames, "unary2")
 	}
